@@ -398,6 +398,7 @@ class QuotientFilter:
         # element not in the filter, exit
         if idx == -1:
             return
+        self._elements_added -= 1
 
         next_idx = (idx + 1) & self.__mod_size
 
